@@ -302,6 +302,10 @@ pub fn run(tier: Tier, seed: u64) -> i32 {
             mc::util::machinery_error("C04: steering of the server public key failed in the reference model");
         }
         let ver = SrpVerifier::from_database_values(ns("A"), v.to_le_padded::<32>(), [0u8; 32]);
+        if !taken_as_is(Pinned::ServerKey, &b_priv) {
+            NOT_OWNED.fetch_add(1, Ordering::Relaxed);
+            continue;
+        }
         let (r, used, _log) = with_script(&b_priv, move || {
             let p = ver.into_proof();
             *p.server_public_key()
@@ -366,6 +370,10 @@ pub fn run(tier: Tier, seed: u64) -> i32 {
         for &g in &gens {
             for a in &a_alpha {
                 let want_a = U::from_u64(g as u64).modpow(&U::from_le_bytes(a), m);
+                if !taken_as_is(Pinned::ClientKey, a) {
+                    NOT_OWNED.fetch_add(1, Ordering::Relaxed);
+                    continue;
+                }
                 let (r, _used, _log) = with_script(a, || {
                     let c = SrpClientChallenge::new(ns("A"), ns("A"), g, m_le, b_pub, [7u8; 32]);
                     *c.client_public_key()
@@ -425,6 +433,10 @@ pub fn run(tier: Tier, seed: u64) -> i32 {
             mc::util::machinery_error("group witness does not satisfy g^a mod N' = built-in N with N' > N");
         }
         let a = le32_from_u64(a_exp);
+        if !taken_as_is(Pinned::ClientKey, &a) {
+            NOT_OWNED.fetch_add(1, Ordering::Relaxed);
+            continue;
+        }
         let (r, _, _) = with_script(&a, || {
             let c = SrpClientChallenge::new(ns("A"), ns("A"), g, m_le, b_pub, [7u8; 32]);
             *c.client_public_key()
